@@ -2,13 +2,12 @@ package extract
 
 import (
 	"fmt"
-	"go/ast"
-	"go/token"
 	"strings"
 )
 
-// OfflineImport: the shape of the `Update:` loop of libvuln.OfflineImport
-// (libvuln/updates.go), by role and not by variable name:
+// OfflineImport: what libvuln.OfflineImport (libvuln/updates.go) does with the
+// entries of its input, stated as the facts Props/C16.lean ties the Lean model
+// of the loop (Model/JsonBlob.lean, importEntry / importAll) to:
 //
 //	for L.Next() {                      loop over the jsonblob loader
 //	    e := L.Entry()
@@ -19,299 +18,385 @@ import (
 //	}
 //	L.Err() checked after the loop
 //
-// The Lean model of the loop (Model/JsonBlob.lean, importEntry) is stated
-// against these facts in Props/C16.lean; the function needs Postgres, so it
-// cannot be driven by the correspondence harness.
+// EVALUATED (design/EXTRACT.md, round 2).  The function builds its own
+// postgres.MatcherStore from a *pgxpool.Pool, so the probe
+// go/cmd/rxprobe/offlineimport connects the pool to the scripted in-process
+// backend go/internal/rxpg and runs the REAL function on sixteen scenarios
+// (inputs written by the real jsonblob.Store; update operations the database
+// already knows; the store call that fails; an input that stops decoding).  The
+// facts below are read off what the store asked of the database and whether an
+// error came back, so they do not depend on how the loop is written (label and
+// `continue`, helper functions, inverted branches, `return l.Err()` …):
+//
+//	opsKind                 the kind the query for the known operations filters on
+//	rangeKey, skipCompare   an entry is skipped exactly when an operation of ITS updater has ITS fingerprint
+//	                        (scenarios known-same / -other-updater / -other-fingerprint / -swapped)
+//	skipContinuesLoop       the entries after a skipped one are still imported
+//	guardedCalls            which store method runs for which non-empty record list, with which arguments, in which order
+//	errCheckedAfterLoop,
+//	loaderErrorReturned     an input that stops decoding makes the function return an error
+//	storeErrorsNotReturned  scripted failures of a store call that did not end the import with an error
+//	loaderReadsTheInput,
+//	oneLoaderThroughout     every store call carries the updater / fingerprint of an input entry; every entry that
+//	                        is not skipped is imported once, in input order
+//	unrecognisedStatements  scenarios whose observed calls differ from what the facts above predict, plus
+//	                        statements the scripted backend does not know
+type oiOp struct {
+	Updater     string `json:"updater"`
+	Fingerprint string `json:"fingerprint"`
+	Kind        string `json:"kind"`
+}
+
+type oiEntry struct {
+	Updater     string `json:"updater"`
+	Fingerprint string `json:"fingerprint"`
+	Vulns       int    `json:"vulns"`
+	Enrichments int    `json:"enrichments"`
+}
+
+type oiEvent struct {
+	What   string `json:"what"`
+	Kind   string `json:"kind"`
+	Arg1   string `json:"arg1"`
+	Arg2   string `json:"arg2"`
+	SQL    string `json:"sql"`
+	Failed bool   `json:"failed"`
+}
+
+type oiScenario struct {
+	Name       string    `json:"name"`
+	Known      []oiOp    `json:"known"`
+	Entries    []oiEntry `json:"entries"`
+	FailCreate int       `json:"fail_create"`
+	Garbage    bool      `json:"garbage"`
+	Events     []oiEvent `json:"events"`
+	Err        bool      `json:"err"`
+	Panic      string    `json:"panic"`
+	Timeout    bool      `json:"timeout"`
+}
+
+// oiCall is one store call as the scripted backend saw it.
+type oiCall struct {
+	kind       string // "vulnerability" | "enrichment" (the literal of the INSERT INTO update_operation)
+	arg1, arg2 string
+	inserts    int    // records written under it
+	insertKind string // "vuln" | "enrichment" | "" | "mixed"
+	delta      bool
+	failed     bool
+}
+
+func (c oiCall) String() string {
+	return fmt.Sprintf("%s(%s,%s,%d %s records%s)", c.kind, c.arg1, c.arg2, c.inserts, c.insertKind, map[bool]string{true: ",failed", false: ""}[c.failed])
+}
+
+func oiCalls(sc *oiScenario) (calls []oiCall, opsKinds []string, other int) {
+	for _, ev := range sc.Events {
+		switch ev.What {
+		case "ops-query":
+			opsKinds = append(opsKinds, ev.Kind)
+		case "create":
+			calls = append(calls, oiCall{kind: ev.Kind, arg1: ev.Arg1, arg2: ev.Arg2, failed: ev.Failed})
+		case "insert-vuln", "insert-enrichment":
+			if len(calls) == 0 {
+				other++
+				continue
+			}
+			c := &calls[len(calls)-1]
+			k := strings.TrimPrefix(ev.What, "insert-")
+			if c.insertKind != "" && c.insertKind != k {
+				k = "mixed"
+			}
+			c.insertKind = k
+			c.inserts++
+		case "select-existing":
+			if len(calls) > 0 {
+				calls[len(calls)-1].delta = true
+			} else {
+				other++
+			}
+		case "assoc-vuln", "assoc-enrichment", "refresh":
+		default:
+			other++
+		}
+	}
+	return
+}
+
 func init() {
 	Register(Gen{Name: "OfflineImport", Run: func(repo string) (string, error) {
 		const src = "libvuln/updates.go"
-		_, f, err := ParseFile(repo, src)
+		var ans struct {
+			Scenarios []*oiScenario `json:"scenarios"`
+		}
+		if err := rxProbe(repo, "offlineimport", map[string]any{}, &ans); err != nil {
+			return "", err
+		}
+		by := map[string]*oiScenario{}
+		for _, sc := range ans.Scenarios {
+			if sc.Panic != "" || sc.Timeout {
+				return "", fmt.Errorf("OfflineImport, scenario %s: panic %q timeout %v", sc.Name, sc.Panic, sc.Timeout)
+			}
+			by[sc.Name] = sc
+		}
+		need := func(n string) (*oiScenario, error) {
+			if sc := by[n]; sc != nil {
+				return sc, nil
+			}
+			return nil, fmt.Errorf("offlineimport probe: scenario %s missing", n)
+		}
+		// was entry i of the scenario handed to the store at all?
+		imported := func(sc *oiScenario, i int) bool {
+			e := sc.Entries[i]
+			calls, _, _ := oiCalls(sc)
+			for _, c := range calls {
+				if (c.arg1 == e.Updater && c.arg2 == e.Fingerprint) || (c.arg1 == e.Fingerprint && c.arg2 == e.Updater) {
+					return true
+				}
+			}
+			return false
+		}
+
+		// opsKind
+		opsKind, unknown := "", 0
+		first := true
+		for _, sc := range ans.Scenarios {
+			_, ks, other := oiCalls(sc)
+			unknown += other
+			if len(ks) != 1 {
+				unknown++
+			}
+			for _, k := range ks {
+				name := map[string]string{"vulnerability": "VulnerabilityKind", "enrichment": "EnrichmentKind", "": ""}[k]
+				if first {
+					opsKind, first = name, false
+				} else if name != opsKind {
+					opsKind = "<varies>"
+				}
+			}
+		}
+
+		// the skip rule
+		var scs [6]*oiScenario
+		for i, n := range []string{"known-same", "known-other-updater", "known-other-fingerprint", "known-swapped", "known-same-among-others", "known-same-enrichment-entry"} {
+			sc, err := need(n)
+			if err != nil {
+				return "", err
+			}
+			scs[i] = sc
+		}
+		same, otherUpd, otherFp, swapped := !imported(scs[0], 0), !imported(scs[1], 0), !imported(scs[2], 0), !imported(scs[3], 0)
+		rangeKey := "<no entry is skipped>"
+		skipL, skipR := "<no entry is skipped>", "<no entry is skipped>"
+		if same {
+			rangeKey = "Updater"
+			if otherUpd {
+				rangeKey = "<operations of every updater>"
+			}
+			skipL, skipR = "Fingerprint", "Fingerprint"
+			if otherFp {
+				skipL, skipR = "<any>", "<any>"
+			} else if swapped {
+				skipL, skipR = "<Fingerprint or Updater>", "<Fingerprint or Updater>"
+			}
+		}
+		skipContinues := same && imported(scs[0], 1) && !imported(scs[4], 0) && imported(scs[4], 1) && (imported(scs[5], 0) || imported(scs[5], 1))
+
+		// the guarded calls
+		vo, err := need("vulns-only")
 		if err != nil {
 			return "", err
 		}
-		fd := FuncDecl(f, "", "OfflineImport")
-		if fd == nil || fd.Body == nil {
-			return "", fmt.Errorf("%s: func OfflineImport not found", src)
+		eo, err := need("enrichments-only")
+		if err != nil {
+			return "", err
 		}
-		// ops, err := s.GetUpdateOperations(ctx, driver.<Kind>)
-		opsKind := ""
-		// in: the io.Reader parameter; l: the variable jsonblob.Load's result is assigned to
-		inParam := ""
-		if ps := fd.Type.Params; ps != nil && len(ps.List) > 0 {
-			last := ps.List[len(ps.List)-1]
-			if len(last.Names) > 0 {
-				inParam = last.Names[len(last.Names)-1].Name
-			}
+		both, err := need("both")
+		if err != nil {
+			return "", err
 		}
-		loaderVar, loadArg := "", ""
-		errReturned := false
-		var loop *ast.ForStmt
-		label := ""
-		errChecked := false
-		for _, st := range fd.Body.List {
-			if as, ok := st.(*ast.AssignStmt); ok && len(as.Rhs) == 1 {
-				if call, ok := as.Rhs[0].(*ast.CallExpr); ok && oiSelName(call.Fun) == "GetUpdateOperations" && len(call.Args) == 2 && loop == nil {
-					opsKind = oiSelName(call.Args[1])
-				}
-				if call, ok := as.Rhs[0].(*ast.CallExpr); ok && oiSelName(call.Fun) == "Load" && len(call.Args) == 2 && loop == nil {
-					if id, ok := as.Lhs[0].(*ast.Ident); ok {
-						loaderVar = id.Name
-					}
-					if id, ok := call.Args[1].(*ast.Ident); ok {
-						loadArg = id.Name
-					}
-				}
-			}
-			if ls, ok := st.(*ast.LabeledStmt); ok {
-				if fs, ok := ls.Stmt.(*ast.ForStmt); ok {
-					loop, label = fs, ls.Label.Name
-					continue
-				}
-			}
-			if fs, ok := st.(*ast.ForStmt); ok && loop == nil {
-				loop = fs
-				continue
-			}
-			if loop != nil {
-				ast.Inspect(st, func(n ast.Node) bool {
-					if c, ok := n.(*ast.CallExpr); ok && oiSelName(c.Fun) == "Err" {
-						errChecked = true
-					}
-					return true
-				})
-				// if err := l.Err(); err != nil { return err }
-				if is, ok := st.(*ast.IfStmt); ok && is.Init != nil && is.Else == nil {
-					if as, ok := is.Init.(*ast.AssignStmt); ok && len(as.Rhs) == 1 && len(as.Lhs) == 1 {
-						c, ok1 := as.Rhs[0].(*ast.CallExpr)
-						ev, ok2 := as.Lhs[0].(*ast.Ident)
-						if ok1 && ok2 && oiSelName(c.Fun) == "Err" && oiRecv(c.Fun) == loaderVar && oiNotNil(is.Cond, ev.Name) && oiReturnsNonNil(is.Body) {
-							errReturned = true
-						}
-					}
-				}
-			}
-		}
-		if loop == nil {
-			return "", fmt.Errorf("%s: OfflineImport has no loop", src)
-		}
-		cond, ok := loop.Cond.(*ast.CallExpr)
-		if !ok || oiSelName(cond.Fun) != "Next" || loop.Init != nil || loop.Post != nil {
-			return "", fmt.Errorf("%s: the loop is not `for l.Next()`", src)
-		}
-		if len(loop.Body.List) == 0 {
-			return "", fmt.Errorf("%s: empty loop body", src)
-		}
-		loaderConsistent := loaderVar != "" && oiRecv(cond.Fun) == loaderVar
-		// e := l.Entry()
-		ev := ""
-		if as, ok := loop.Body.List[0].(*ast.AssignStmt); ok && len(as.Lhs) == 1 && len(as.Rhs) == 1 {
-			if c, ok := as.Rhs[0].(*ast.CallExpr); ok && oiSelName(c.Fun) == "Entry" {
-				if oiRecv(c.Fun) != loaderVar {
-					loaderConsistent = false
-				}
-				if id, ok := as.Lhs[0].(*ast.Ident); ok {
-					ev = id.Name
-				}
-			}
-		}
-		if ev == "" {
-			return "", fmt.Errorf("%s: the loop body does not start with `e := l.Entry()`", src)
-		}
-		field := func(e ast.Expr, recv string) string {
-			if se, ok := e.(*ast.SelectorExpr); ok {
-				if id, ok := se.X.(*ast.Ident); ok && id.Name == recv {
-					return se.Sel.Name
-				}
-			}
-			return ""
-		}
-		var rangeKey, skipLeft, skipRight, skipLabel string
 		type guarded struct {
-			guard  string
-			method string
-			args   []string
+			kind, guard, method string
+			args                []string
 		}
 		var calls []guarded
-		unknown := 0
-		guardedNoReturn := 0
-		for _, st := range loop.Body.List[1:] {
-			switch s := st.(type) {
-			case *ast.RangeStmt:
-				ix, ok := s.X.(*ast.IndexExpr)
-				if !ok {
-					unknown++
-					continue
-				}
-				rangeKey = field(ix.Index, ev)
-				opv := ""
-				if id, ok := s.Value.(*ast.Ident); ok {
-					opv = id.Name
-				}
-				for _, bs := range s.Body.List {
-					is, ok := bs.(*ast.IfStmt)
-					if !ok {
-						unknown++
-						continue
-					}
-					be, ok := is.Cond.(*ast.BinaryExpr)
-					if !ok || be.Op != token.EQL {
-						unknown++
-						continue
-					}
-					skipLeft, skipRight = field(be.X, opv), field(be.Y, ev)
-					if skipLeft == "" && skipRight == "" {
-						skipLeft, skipRight = field(be.Y, opv), field(be.X, ev)
-					}
-					for _, x := range is.Body.List {
-						if br, ok := x.(*ast.BranchStmt); ok && br.Tok == token.CONTINUE && br.Label != nil {
-							skipLabel = br.Label.Name
-							continue
-						}
-						if !oiIsLogging(x) {
-							unknown++
-						}
-					}
-					if is.Else != nil || is.Init != nil {
-						unknown++
-					}
-				}
-			case *ast.IfStmt:
-				be, ok := s.Cond.(*ast.BinaryExpr)
-				if !ok || be.Op != token.NEQ || s.Else != nil {
-					unknown++
-					continue
-				}
-				if id, ok := be.Y.(*ast.Ident); !ok || id.Name != "nil" {
-					unknown++
-					continue
-				}
-				g := guarded{guard: field(be.X, ev)}
-				ast.Inspect(s.Body, func(n ast.Node) bool {
-					c, ok := n.(*ast.CallExpr)
-					if !ok || !strings.HasPrefix(oiSelName(c.Fun), "Update") || g.method != "" {
-						return true
-					}
-					g.method = oiSelName(c.Fun)
-					for _, a := range c.Args[1:] {
-						g.args = append(g.args, field(a, ev))
-					}
+		hasKind := func(sc *oiScenario, k string) bool {
+			cs, _, _ := oiCalls(sc)
+			for _, c := range cs {
+				if c.kind == k {
 					return true
-				})
-				if g.guard == "" || g.method == "" {
-					unknown++
-					continue
 				}
-				// the body is `if ref, err = s.Update…(…); err != nil { return <error> }` and nothing else
-				propagates := false
-				if len(s.Body.List) == 1 && s.Init == nil {
-					if inner, ok := s.Body.List[0].(*ast.IfStmt); ok && inner.Init != nil && inner.Else == nil {
-						if as, ok := inner.Init.(*ast.AssignStmt); ok && len(as.Lhs) == 2 && len(as.Rhs) == 1 {
-							if errv, ok := as.Lhs[1].(*ast.Ident); ok && oiNotNil(inner.Cond, errv.Name) && oiReturnsNonNil(inner.Body) {
-								propagates = true
-							}
-						}
-					}
-				}
-				if !propagates {
-					guardedNoReturn++
-				}
-				calls = append(calls, g)
-			case *ast.DeclStmt:
-				// `var ref uuid.UUID`
-				if gd, ok := s.Decl.(*ast.GenDecl); !ok || gd.Tok != token.VAR {
-					unknown++
-				}
-			case *ast.ExprStmt:
-				if !oiIsLogging(s) {
-					unknown++
-				}
+			}
+			return false
+		}
+		bc, _, _ := oiCalls(both)
+		be := both.Entries[0]
+		seenKind := map[string]bool{}
+		for _, c := range bc {
+			if seenKind[c.kind] {
+				unknown++ // the same store method twice for one entry
+				continue
+			}
+			seenKind[c.kind] = true
+			g := guarded{kind: c.kind}
+			inV, inE := hasKind(vo, c.kind), hasKind(eo, c.kind)
+			switch {
+			case inV && inE:
+				g.guard = "<always>"
+			case inE:
+				g.guard = "Enrichment"
+			case inV:
+				g.guard = "Vuln"
 			default:
-				unknown++
+				g.guard = "<only when both lists are there>"
+			}
+			switch {
+			case c.kind == "enrichment":
+				g.method = "UpdateEnrichments"
+			case c.kind == "vulnerability" && c.delta:
+				g.method = "DeltaUpdateVulnerabilities"
+			case c.kind == "vulnerability":
+				g.method = "UpdateVulnerabilities"
+			default:
+				g.method = "<update of kind " + c.kind + ">"
+			}
+			role := func(v string) string {
+				switch v {
+				case be.Updater:
+					return "Updater"
+				case be.Fingerprint:
+					return "Fingerprint"
+				}
+				return "<" + v + ">"
+			}
+			third := fmt.Sprintf("<%d %s records>", c.inserts, c.insertKind)
+			switch {
+			case c.insertKind == "enrichment" && c.inserts == be.Enrichments:
+				third = "Enrichment"
+			case c.insertKind == "vuln" && c.inserts == be.Vulns:
+				third = "Vuln"
+			}
+			g.args = []string{role(c.arg1), role(c.arg2), third}
+			calls = append(calls, g)
+		}
+		for _, k := range []string{"vulnerability", "enrichment"} {
+			if !seenKind[k] && (hasKind(vo, k) || hasKind(eo, k)) {
+				unknown++ // a call that appears for a one-list entry but not for the entry with both lists
 			}
 		}
+
+		// prediction: what the facts above say each scenario must show
+		predict := func(sc *oiScenario) (want []string, wantErr bool) {
+			creates := 0
+			for _, e := range sc.Entries {
+				skip := false
+				for _, op := range sc.Known {
+					if opsKind != "" && opsKind != "<varies>" && map[string]string{"vulnerability": "VulnerabilityKind", "enrichment": "EnrichmentKind"}[op.Kind] != opsKind {
+						continue
+					}
+					if same && (otherUpd || op.Updater == e.Updater) && (otherFp || op.Fingerprint == e.Fingerprint) {
+						skip = true
+					}
+				}
+				if skip {
+					continue
+				}
+				for _, g := range calls {
+					n := 0
+					switch g.guard {
+					case "Enrichment":
+						n = e.Enrichments
+					case "Vuln":
+						n = e.Vulns
+					default:
+						n = 1
+					}
+					if n == 0 {
+						continue
+					}
+					creates++
+					c := oiCall{kind: g.kind, arg1: e.Updater, arg2: e.Fingerprint}
+					if creates == sc.FailCreate {
+						c.failed = true
+						want = append(want, c.String())
+						return want, true
+					}
+					if g.kind == "enrichment" {
+						c.inserts, c.insertKind = e.Enrichments, "enrichment"
+					} else {
+						c.inserts, c.insertKind = e.Vulns, "vuln"
+					}
+					want = append(want, c.String())
+				}
+			}
+			return want, sc.Garbage
+		}
+		inputOnly, inOrder := true, true
+		notReturned := 0
+		for _, sc := range ans.Scenarios {
+			cs, _, _ := oiCalls(sc)
+			var got []string
+			for _, c := range cs {
+				got = append(got, c.String())
+				ok := false
+				for _, e := range sc.Entries {
+					if (c.arg1 == e.Updater && c.arg2 == e.Fingerprint) || (c.arg1 == e.Fingerprint && c.arg2 == e.Updater) {
+						ok = true
+					}
+				}
+				if !ok {
+					inputOnly = false
+				}
+			}
+			want, wantErr := predict(sc)
+			if strings.Join(got, ";") != strings.Join(want, ";") {
+				unknown++
+				if sc.FailCreate == 0 {
+					inOrder = false
+				}
+			}
+			if sc.FailCreate > 0 {
+				failedSeen, after := false, false
+				for _, c := range cs {
+					if failedSeen {
+						after = true
+					}
+					if c.failed {
+						failedSeen = true
+					}
+				}
+				if failedSeen && (!sc.Err || after) {
+					notReturned++
+				}
+			} else if sc.Err != wantErr && !sc.Garbage {
+				unknown++ // an error (or none) nothing explains
+			}
+		}
+		gt, err := need("garbage-tail")
+		if err != nil {
+			return "", err
+		}
+		gonly, err := need("garbage-only")
+		if err != nil {
+			return "", err
+		}
+		loaderErr := gt.Err && gonly.Err
+
 		out := Header("OfflineImport", src)
 		out += fmt.Sprintf("def opsKind : String := %s\n", LeanString(opsKind))
 		out += fmt.Sprintf("def rangeKey : String := %s\n", LeanString(rangeKey))
-		out += fmt.Sprintf("def skipCompare : String × String := (%s, %s)\n", LeanString(skipLeft), LeanString(skipRight))
-		out += fmt.Sprintf("def skipContinuesLoop : Bool := %v\n", skipLabel != "" && skipLabel == label)
+		out += fmt.Sprintf("def skipCompare : String × String := (%s, %s)\n", LeanString(skipL), LeanString(skipR))
+		out += fmt.Sprintf("def skipContinuesLoop : Bool := %v\n", skipContinues)
 		var cs []string
 		for _, c := range calls {
 			cs = append(cs, fmt.Sprintf("(%s, %s, %s)", LeanString(c.guard), LeanString(c.method), LeanStrList(c.args)))
 		}
 		out += "def guardedCalls : List (String × String × List String) := [" + strings.Join(cs, ", ") + "]\n"
-		out += fmt.Sprintf("def errCheckedAfterLoop : Bool := %v\n", errChecked)
+		out += fmt.Sprintf("def errCheckedAfterLoop : Bool := %v\n", loaderErr)
 		out += fmt.Sprintf("def unrecognisedStatements : Nat := %d\n", unknown)
-		out += fmt.Sprintf("def loaderReadsTheInput : Bool := %v\n", inParam != "" && loadArg == inParam)
-		out += fmt.Sprintf("def oneLoaderThroughout : Bool := %v\n", loaderConsistent)
-		out += fmt.Sprintf("def storeErrorsNotReturned : Nat := %d\n", guardedNoReturn)
-		out += fmt.Sprintf("def loaderErrorReturned : Bool := %v\n", errReturned)
+		out += fmt.Sprintf("def loaderReadsTheInput : Bool := %v\n", inputOnly)
+		out += fmt.Sprintf("def oneLoaderThroughout : Bool := %v\n", inOrder)
+		out += fmt.Sprintf("def storeErrorsNotReturned : Nat := %d\n", notReturned)
+		out += fmt.Sprintf("def loaderErrorReturned : Bool := %v\n", loaderErr)
 		return out + Footer("OfflineImport"), nil
 	}})
-}
-
-// oiRecv is x of a selector expression x.Sel when x is an identifier.
-func oiRecv(e ast.Expr) string {
-	if se, ok := e.(*ast.SelectorExpr); ok {
-		if id, ok := se.X.(*ast.Ident); ok {
-			return id.Name
-		}
-	}
-	return ""
-}
-
-// oiNotNil: the expression is `<name> != nil`.
-func oiNotNil(e ast.Expr, name string) bool {
-	be, ok := e.(*ast.BinaryExpr)
-	if !ok || be.Op != token.NEQ {
-		return false
-	}
-	x, ok1 := be.X.(*ast.Ident)
-	y, ok2 := be.Y.(*ast.Ident)
-	return ok1 && ok2 && x.Name == name && y.Name == "nil"
-}
-
-// oiReturnsNonNil: the block is a single `return <expr>` whose value is not the literal nil.
-func oiReturnsNonNil(b *ast.BlockStmt) bool {
-	if b == nil || len(b.List) != 1 {
-		return false
-	}
-	rs, ok := b.List[0].(*ast.ReturnStmt)
-	if !ok || len(rs.Results) != 1 {
-		return false
-	}
-	if id, ok := rs.Results[0].(*ast.Ident); ok && id.Name == "nil" {
-		return false
-	}
-	return true
-}
-
-// oiIsLogging: an expression statement that is a method chain rooted at the package zlog.
-func oiIsLogging(st ast.Stmt) bool {
-	es, ok := st.(*ast.ExprStmt)
-	if !ok {
-		return false
-	}
-	var e ast.Expr = es.X
-	for {
-		switch x := e.(type) {
-		case *ast.CallExpr:
-			e = x.Fun
-		case *ast.SelectorExpr:
-			e = x.X
-		case *ast.Ident:
-			return x.Name == "zlog"
-		default:
-			return false
-		}
-	}
-}
-
-func oiSelName(e ast.Expr) string {
-	switch x := e.(type) {
-	case *ast.SelectorExpr:
-		return x.Sel.Name
-	case *ast.Ident:
-		return x.Name
-	}
-	return ""
 }
